@@ -108,7 +108,7 @@ def _(ctx, c):
     kw = dict(maxiters=c["maxiters"], printitn=c["printitn"], fixsigns=c["fixsigns"])
     init_obj = None
     if c["init"] == "ktensor":
-        init_obj = gen.build_ktensor(c["init_k"])
+        init_obj = R.CS.build_ktensor(c["init_k"])
         ops["init"] = init_obj
         kw["init"] = init_obj
     else:
@@ -175,7 +175,7 @@ def _reg_apr(alg):
             kw["precompinds"] = c["precompinds"]
         init_obj = None
         if c["init"] == "ktensor":
-            init_obj = gen.build_ktensor(c["init_k"])
+            init_obj = R.CS.build_ktensor(c["init_k"])
             ops["init"] = init_obj
             kw["init"] = init_obj
             ctx.label("init-ktensor", "zero-rows" if R.PREDICATES["apr_init_has_zero_row"](c) else "no-zero-rows")
@@ -220,7 +220,7 @@ R.pred("hosvd_ranks_array_with_zero")(lambda c: c.get("ranks") is not None and c
 
 @op("alg/hosvd", g_hosvd, quick=60, thorough=1500, shards=(1, 4))
 def _(ctx, c):
-    X = gen.build_tensor(c)
+    X = R.CS.build_tensor(c)
     ops = {"data": X}
     kw = dict(verbosity=c["verbosity"], sequential=c["sequential"])
     do = dimorder_arg(c, "dimorder", ops)
@@ -263,7 +263,7 @@ def g_tucker(draw, tier):
 
 @op("alg/tucker_als", g_tucker, quick=40, thorough=1000, shards=(2, 4), result_of=model_and_info)
 def _(ctx, c):
-    X = gen.build_tensor(c)
+    X = R.CS.build_tensor(c)
     ops = {"data": X}
     kw = dict(maxiters=c["maxiters"], printitn=c["printitn"])
     rank = c["rank"][0] if c["rank_form"] == "int" else R.as_form(c["rank"], c["rank_form"])
@@ -348,7 +348,7 @@ def _(ctx, c):
     kw = dict(printitn=0)
     init_obj = None
     if c["init"] == "ktensor":
-        init_obj = gen.build_ktensor(c["init_k"])
+        init_obj = R.CS.build_ktensor(c["init_k"])
         ops["init"] = init_obj
         kw["init"] = init_obj
     elif c["init"] == "list":
